@@ -107,7 +107,12 @@ def make(kind: str, program: str, with_callback: bool = True, route_back: bool =
                     p = next((k for k, v in P.items() if int.from_bytes(raw[1:3], "big") == int(v[0]) and raw[4] == v[2]), 0)
                     key = (body.sequence_counter, raw)
                     repetition = bool(srv["requests"]) and srv["requests"][-1]["key"] == key and srv.get("new_connection_at") != len(srv["requests"])
-                    rec = {"t": now, "key": key, "p": p, "code": code, "counter": body.sequence_counter, "repetition": repetition}
+                    if repetition and cancel_times and srv["requests"][-1]["t"] < cancel_times[-1] - 1e-9 and cancel_times[-1] <= now + 1e-9:
+                        repetition = False   # the user cancelled the call in between: identical octets, but a new request of a new call
+                        cancel_split = True
+                    else:
+                        cancel_split = False
+                    rec = {"t": now, "key": key, "p": p, "code": code, "counter": body.sequence_counter, "repetition": repetition, "after_cancel": cancel_split}
                     srv["requests"].append(rec)
                     a = 0 if tcp else ch.choose("ack", len(ACKS))
                     rec["ack"] = ACKS[a]
@@ -164,6 +169,7 @@ def make(kind: str, program: str, with_callback: bool = True, route_back: bool =
             results: dict[str, Any] = {}
             closed_at: list[float] = []
             cancelled_by_user: list[bool] = []
+            cancel_times: list[float] = []
 
             async def _do(name: str, p: int, write: bool) -> None:
                 start = loop.time()
@@ -226,12 +232,14 @@ def make(kind: str, program: str, with_callback: bool = True, route_back: bool =
                 await asyncio.sleep(0.015)
                 if program in ("reuse", "reuse-pending"):
                     return   # this program closes and reopens the connection itself
-                c = ch.choose("user", len(USER))
+                # (cancellation only in the sequential programs, where the call that is waiting is the one being cancelled)
+                c = ch.choose("user", len(USER) if program != "par" else 2)
                 if c == 2:
                     events.append((round(loop.time(), 3), "user cancels the waiting request"))
                     if current and not current[0].done():
                         current[0].cancel()
                         cancelled_by_user.append(True)
+                        cancel_times.append(loop.time())
                 elif c == 1:
                     events.append((round(loop.time(), 3), "user disconnect()"))
                     closed_at.append(loop.time())
@@ -296,7 +304,8 @@ def make(kind: str, program: str, with_callback: bool = True, route_back: bool =
                 # request is unknowable for the client - the counter clauses are not judged in such a schedule
                 unknowable = bool(cancelled_by_user) and any(r["t"] <= 0.015 + 1e-9 and r["ack"] == "ack-late(0.03s)" for r in reqs)
                 expect = 0
-                for run in ([] if unknowable else runs):
+                for ri, run in enumerate([] if unknowable else runs):
+                    run_end = min(run[-1]["t"] + 10, runs[ri + 1][0]["t"] - 1e-6) if ri + 1 < len(runs) else run[-1]["t"] + 10
                     nca = srv.get("new_connection_at")
                     if nca is not None and nca < len(reqs) and run[0] is reqs[nca]:
                         expect = 0   # first request of the second connection
@@ -310,12 +319,14 @@ def make(kind: str, program: str, with_callback: bool = True, route_back: bool =
                     # request (same service, object type, instance and property; it cannot tell a stale duplicate apart) arrived meanwhile
                     req_raw = run[0]["key"][1]
                     con_code = {CEMIMessageCode.M_PROP_READ_REQ.value: CEMIMessageCode.M_PROP_READ_CON.value, CEMIMessageCode.M_PROP_WRITE_REQ.value: CEMIMessageCode.M_PROP_WRITE_CON.value}.get(req_raw[0])
-                    answered = any(run[0]["t"] - 1e-9 <= t <= run[-1]["t"] + 10 + 1e-9 and raw[0] == con_code and raw[1:5] == req_raw[1:5] for t, raw in srv.get("sent", []))
+                    answered = any(run[0]["t"] - 1e-9 <= t <= run_end + 1e-9 and raw[0] == con_code and raw[1:5] == req_raw[1:5] for t, raw in srv.get("sent", []))
                     if any(x["ack"] in ACCEPTED for x in run):
                         expect = (expect + 1) % 256
                     elif answered:
                         expect = (expect + 1) % 256
                         continue
+                    elif len(run) == 4 and any(run[0]["t"] - 1e-9 <= ct <= run[-1]["t"] + 10 + 1e-9 for ct in cancel_times):
+                        pass   # the user cancelled the call while its last repetition was waiting: nothing left to terminate
                     elif len(run) == 4 and not any(e[1] == "DisconnectRequest(client)" for e in events):
                         viols.append(("no-disconnect-after-unacknowledged-repetitions", f"events={events}"))
                 # 'the counter advances once per accepted request': what the client would put into its next request
